@@ -43,6 +43,9 @@ func addMonitor(rep *Report, c *Case, prop, msg string) {
 	d.Lean = msg
 	d.Prop = prop
 	d.Detail = ""
+	if c.baseRef != nil { // metamorphic variant: keep the base document in the replay
+		d.Detail = "base document (hex): " + hx(c.baseRef.Files[c.baseRef.Root])
+	}
 	rep.Monitor = append(rep.Monitor, d)
 }
 
@@ -76,13 +79,18 @@ func compareSameCatalog(rep *Report, prop string, cs []*Case, what string) {
 		if v == base {
 			continue
 		}
+		v.baseRef = base
 		vk, vm := buildOutcome(v)
 		switch {
 		case bk == "crash" || vk == "crash":
 			// reported by the crash monitor
 		case bk == "ok" && vk == "ok":
 			if jsonOf(base) != jsonOf(v) {
-				addMonitor(rep, v, prop, fmt.Sprintf("%s (%s) changes the catalog: %s", what, v.Role, firstJSONDiff(jsonOf(base), jsonOf(v))))
+				if sameButExamples(jsonOf(base), jsonOf(v)) {
+					addMonitor(rep, v, prop, fmt.Sprintf("%s (%s): the catalogs differ only in generated examples: %s", what, v.Role, firstJSONDiff(jsonOf(base), jsonOf(v))))
+				} else {
+					addMonitor(rep, v, prop, fmt.Sprintf("%s (%s) changes the catalog: %s", what, v.Role, firstJSONDiff(jsonOf(base), jsonOf(v))))
+				}
 			}
 		case bk == "ok" && vk == "err":
 			addMonitor(rep, v, prop, fmt.Sprintf("%s (%s): the original document is accepted, the rewritten one is rejected: %s", what, v.Role, vm))
@@ -232,6 +240,12 @@ func genSplitCases(p *PRNG, n int, tier string) []*Case {
 	add := func(c *Case) { c.ID = len(cases); cases = append(cases, c) }
 	g := 0
 	for len(cases) < n {
+		if p.Chance(1, 6) {
+			for _, c := range sharedPieceCases(p, &g) {
+				add(c)
+			}
+			continue
+		}
 		m := GenModel(p.Fork(), 1+p.Intn(3))
 		tree := ModelTree(m)
 		if p.Chance(1, 3) {
@@ -261,6 +275,72 @@ func genSplitCases(p *PRNG, n int, tier string) []*Case {
 		}
 	}
 	return cases
+}
+
+// sharedPieceCases: the same piece (a method block without its own path) included from several URLs
+func sharedPieceCases(p *PRNG, g *int) []*Case {
+	m := GenModel(p.Fork(), 2)
+	var block *DNode
+	for _, r := range m.Resources {
+		if r.Grouped && len(r.Methods) > 0 {
+			tree := ModelTree(&Model{Types: m.Types, Enums: m.Enums, Tags: m.Tags, Resources: []MResource{r}})
+			for _, n := range tree {
+				if n.Keyword == "URL" {
+					for _, k := range n.Kids {
+						if isMethodKind(k.Keyword) {
+							block = k
+						}
+					}
+				}
+			}
+		}
+	}
+	if block == nil {
+		block = &DNode{Keyword: "GET", Kids: []*DNode{{Keyword: "200", Params: []string{"any"}}}}
+	}
+	// a Path child makes the piece exercise the path-variable bookkeeping
+	withPath := *block
+	withPath.Kids = append([]*DNode{{Keyword: "Path", Body: "{\n  \"id\": 1\n}", BodyKind: "schema"}}, stripKinds(block.Kids, "Path", "OperationId")...)
+	l := RandomLayout(p.Fork())
+	l.Comments = 0
+	k := 2 + p.Intn(2)
+	var decls []*DNode
+	decls = append(decls, &DNode{Keyword: "JSIGHT", Params: []string{"0.3"}})
+	base := ModelTree(&Model{Types: m.Types, Enums: m.Enums, Tags: m.Tags})
+	decls = append(decls, base[1:]...)
+	var unsplit, split []*DNode
+	unsplit = append(unsplit, decls...)
+	split = append(split, decls...)
+	for i := 0; i < k; i++ {
+		path := fmt.Sprintf("/shared%d/{id}", i)
+		cp := cloneTree([]*DNode{&withPath})[0]
+		unsplit = append(unsplit, &DNode{Keyword: "URL", Params: []string{path}, Kids: []*DNode{cp}})
+		split = append(split, &DNode{Keyword: "URL", Params: []string{path}, Kids: []*DNode{{Keyword: "INCLUDE", Params: []string{"piece.jst"}}}})
+	}
+	*g++
+	grp := fmt.Sprintf("split-%d", *g)
+	b := singleBuild("split-shared", []byte(RenderTree(unsplit, l)))
+	b.Group, b.Role = grp, "base"
+	files := map[string][]byte{"piece.jst": []byte(RenderTree([]*DNode{&withPath}, l)), "root.jst": []byte(RenderTree(split, l))}
+	v := buildCase("split-shared", files, "root.jst")
+	v.Group, v.Role = grp, fmt.Sprintf("one piece included from %d places", k)
+	return []*Case{b, v}
+}
+
+func stripKinds(ns []*DNode, kinds ...string) []*DNode {
+	var out []*DNode
+	for _, n := range ns {
+		drop := false
+		for _, k := range kinds {
+			if n.Keyword == k {
+				drop = true
+			}
+		}
+		if !drop {
+			out = append(out, n)
+		}
+	}
+	return out
 }
 
 func splitPost(cases []*Case, rep *Report) {
@@ -542,7 +622,17 @@ func orderPost(cases []*Case, rep *Report) {
 			ve, _ := sectionEntries(jsonOf(v))
 			for sec, m := range be {
 				if sec == "tags" {
-					// interactions inside a tag follow the text order: compare as sets
+					// interactions inside a tag follow the text order: compare them as sets, the rest exactly
+					for k, val := range m {
+						if a, b := tagCanon(val), tagCanon(ve[sec][k]); a != b {
+							addMonitor(rep, v, "C15", fmt.Sprintf("after permuting the top-level blocks the tag %q differs: %s  ->  %s", k, trunc(a, 200), trunc(b, 200)))
+							goto next
+						}
+					}
+					if len(ve[sec]) != len(m) {
+						addMonitor(rep, v, "C15", fmt.Sprintf("after permuting the top-level blocks there are %d tags instead of %d", len(ve[sec]), len(m)))
+						goto next
+					}
 					continue
 				}
 				for k, val := range m {
@@ -657,4 +747,28 @@ func init() {
 		buildPost(cases, rep, false)
 		modelPost(cases, rep)
 	}
+}
+
+// tagCanon: a tag with its interaction lists sorted
+func tagCanon(raw string) string {
+	var t map[string]any
+	if json.Unmarshal([]byte(raw), &t) != nil {
+		return raw
+	}
+	if gs, ok := t["interactionGroups"].([]any); ok {
+		for _, g := range gs {
+			if gm, ok := g.(map[string]any); ok {
+				if ids, ok := gm["interactions"].([]any); ok {
+					var ss []string
+					for _, x := range ids {
+						ss = append(ss, fmt.Sprint(x))
+					}
+					sort.Strings(ss)
+					gm["interactions"] = ss
+				}
+			}
+		}
+	}
+	b, _ := json.Marshal(t)
+	return string(b)
 }
